@@ -14,6 +14,8 @@ mod lexer;
 mod io;
 #[cfg(test)]
 mod tests;
+#[cfg(feature="verif-hooks")]
+pub mod verif_hooks;
 
 #[cfg(test)]
 extern crate regex;
